@@ -20,14 +20,16 @@ impl Check for Book {
         // becomes +-inf. Failures in that regime carry their own signature.
         let (lo, hi) = c.xs.iter().fold((f64::INFINITY, f64::NEG_INFINITY), |(l, h), &x| (l.min(x), h.max(x)));
         let spread_overflow = c.xs.len() >= 2 && (hi - lo).is_infinite();
-        match self.test_inner(c, o) {
-            Err(f) if spread_overflow && f.sig.starts_with("quantile:") => Err(Fail { sig: "quantile:spread-overflow".into(), msg: format!("{} (the spread max - min of the stream overflows f64)", f.msg) }),
+        let mut at = 0usize;
+        match self.test_inner(c, o, &mut at) {
+            // K2 concerns the P-square phase only: with fewer than five observations the code is exact
+            Err(f) if spread_overflow && at >= 5 && f.sig.starts_with("quantile:") => Err(Fail { sig: "quantile:spread-overflow".into(), msg: format!("{} (the spread max - min of the stream overflows f64)", f.msg) }),
             r => r,
         }
     }
 }
 impl Book {
-    fn test_inner(&self, c: &QStream, o: &mut Obs) -> TestResult {
+    fn test_inner(&self, c: &QStream, o: &mut Obs, at: &mut usize) -> TestResult {
         if !(c.p >= 0.0 && c.p <= 1.0) || c.xs.iter().any(|x| !x.is_finite()) {
             o.discarded = Some("p outside [0,1] or non-finite observation");
             return Ok(());
@@ -65,6 +67,7 @@ impl Book {
             lo = lo.min(x);
             hi = hi.max(x);
             let n = (i + 1) as u64;
+            *at = i + 1;
             o.evals += 3;
             if q.len() != n {
                 return fail("quantile:len", format!("len() = {} after {} observations", q.len(), n));
@@ -160,7 +163,7 @@ pub fn run(cx: &Ctx) {
     let max_len = cx.by(2000, 20000);
     cx.run_pt(&Book, cx.by(2500, 25000), cx.workers, move || stream_strategy(max_len), "random streams of 10 kinds, length 5..=20000 (quick 2000)");
     let short = || {
-        (super::c05::p_strategy(), proptest::collection::vec(prop_oneof![4 => -100.0..100.0f64, 1 => proptest::sample::select(vec![f64::MAX, f64::MIN, 1e308, 1.5e308, -1e308, -1.7e308, 5e-324, -5e-324, 0.0]), 1 => (-300.0..308.0f64, any::<bool>()).prop_map(|(e, s)| if s { -10f64.powf(e) } else { 10f64.powf(e) })], 0..12)).prop_map(|(p, xs)| QStream { p, xs })
+        (super::c05::p_strategy(), proptest::collection::vec(prop_oneof![4 => -100.0..100.0f64, 1 => proptest::sample::select(vec![f64::MAX, f64::MIN, 1e308, 1.5e308, -1e308, -1.7e308, 5e-324, -5e-324, 0.0]), 1 => (-300.0..308.0f64, any::<bool>()).prop_map(|(e, s)| if s { -10f64.powf(e) } else { 10f64.powf(e) }), 1 => (300.0..308.25f64, any::<bool>()).prop_map(|(e, s)| { let v = 10f64.powf(e).min(f64::MAX); if s { -v } else { v } })], 0..12)).prop_map(|(p, xs)| QStream { p, xs })
     };
     cx.label("generated-short");
     cx.run_pt(&Book, cx.by(3000, 30000), cx.workers, short, "streams of length 0..11 incl. extreme magnitudes (up to f64::MAX, subnormals)");
